@@ -143,3 +143,12 @@ def parser_parse_raises_model(self):
     as parser_error_location_contract establishes for every parser function)"""
     from a816.parse.errors import ParserSyntaxError
     raise ParserSyntaxError("syntax error", ghost_get("error_token"))
+
+
+def table_init_model(self, path=None):
+    """script.Table(path) for table_node_contract: a table object is built (its content from the file is the subject of the to_bytes / parse_table_line
+    contracts); no other object is touched."""
+    self.lookup = {}
+    self.inverted_lookup = {}
+    self.max_bytes_length = 0
+    self.max_text_length = 0
